@@ -202,6 +202,9 @@ def sig_of(case):
     via = {"flip": "flip", "flipud": "flip", "fliplr": "flip", "rot90": "flip", "ravel": "reshape"}.get(op)
     if via:
         sig["via"] = via
+    # a dask input has an axis of length 1 split into several chunks (zero-size chunks on a length-1 axis): input class of the
+    # unify_chunks defect listed as len1-axis-zero-size-chunk
+    sig["len1_axis_zero_chunk"] = any(n == 1 and len(c) > 1 for arr in das for n, c in zip(arr["shape"], arr["chunks"]))
     if op == "pad":
         sig["mode"] = a["mode"]
         # pad width larger than what one reflection / one period of the axis provides
